@@ -29,6 +29,12 @@ NEEDED = {
     "S-C05-4": "C05 datagrams of 65506..65536 bytes over IPv6 loopback and AF_UNIX through the blocking endpoint / UDP client",
     "S-C06-4": "none: mis-framing in the buffered separator scanner (same line as S-C02-2), no foreign exception; C02 and C01 catch it",
     "S-C17-3": "C17 set-up faults 'payload then RST' and 'request then RST' (the kernel knows the reset before the event loop does)",
+    "S-C08-4": "C08 high-level AsyncTCPNetworkServer over real sockets: handler writes 50-300 kB and ends without closing the client, late-reading peer with a 4 KiB window (the change is in servers/async_tcp.py, above the transports the property is anchored in)",
+    "S-C09-4": "C09 reader kind 'low-level AsyncStreamServer without disconnect filter' (handler generator closed = clean end, exception thrown = error)",
+    "S-C11-4": "C11 the client's other lock held by another thread for 3-30 s during the operation under test (TCP and UDP clients)",
+    "S-C12-4": "C12 threads polling the client's state queries (is_closed, addresses) while a sender is blocked mid-packet and another waits",
+    "S-C13-4": "C13 'drain' statements (real WriteFlowControl.drain() with a scripted resume_writing()) and the order-based rule I1s (no normal end in a task step that starts after an enclosing scope's cancel())",
+    "S-C14-4": "C14 path 'client-connecting' (aclose() while wait_connected() is inside the connection set-up); same change as S-C19-2, C19 caught it before",
     "S-C16-2": "C16 datagrams arriving before serve() and a stop + restart of serve() on the same listener",
     "S-C19-2": "C19 client level: AsyncTCPNetworkClient closed / its waiter cancelled at every step of the race",
     "S-C04-2": "C04 interrupted send then resume (C20 caught it before)",
